@@ -5,7 +5,11 @@ tvars == <<vars, l>>
 Tr == ndJsonDeserialize(IOEnv.TRACE)
 E == Tr[l]
 Is(op) == l <= Len(Tr) /\ Tr[l].op = op /\ l' = l + 1
-ObsOK == /\ E.count = Count(chain') /\ E.isen = en'[E.name] /\ E.pre = PreOrder(chain') /\ E.post = PostOrder(chain')
+\* the walks observed after a call run over the chain as the call left it - except that the pre walk in which a plugin removes itself
+\* started on the chain as it was
+ObsOK == /\ E.count = Count(chain') /\ E.isen = en'[E.name]
+         /\ E.pre = (IF E.op = "preremove" THEN PreOrder(chain) ELSE PreOrder(chain'))
+         /\ E.post = PostOrder(chain')
          /\ (E.op \in {"enable", "disable"} => E.res = res')
 TInit == Init /\ l = 1
 TNext == /\ \/ Is("install") /\ Install(E.name)
@@ -14,6 +18,7 @@ TNext == /\ \/ Is("install") /\ Install(E.name)
             \/ Is("disable") /\ SetEnabled(E.name, FALSE)
             \/ Is("objenable") /\ ObjSetEnabled(E.name, TRUE)
             \/ Is("objdisable") /\ ObjSetEnabled(E.name, FALSE)
+            \/ Is("preremove") /\ PreRemove(E.name)
          /\ ObsOK
 TReset == Is("reset") /\ chain' = <<>> /\ en' = [n \in Names |-> TRUE] /\ res' = "ok"
 TSpec == TInit /\ [][TNext \/ TReset]_tvars
@@ -25,6 +30,7 @@ PNext == \/ Is("install") /\ Install(E.name)
          \/ Is("disable") /\ SetEnabled(E.name, FALSE)
          \/ Is("objenable") /\ ObjSetEnabled(E.name, TRUE)
          \/ Is("objdisable") /\ ObjSetEnabled(E.name, FALSE)
+         \/ Is("preremove") /\ PreRemove(E.name)
 PSpec == TInit /\ [][PNext \/ TReset]_tvars
 Predict == (l > 1 /\ l - 1 >= atoi(IOEnv.FROM_LINE_N)) =>
               PrintT(<<"BEH", ToJson([line |-> l - 1, count |-> Count(chain), pre |-> PreOrder(chain), post |-> PostOrder(chain), res |-> res])>>)
